@@ -57,7 +57,10 @@ fn do_async_rstep(h: &mut Box<dyn vfs::async_vfs::SeekAndRead + Send + Unpin>, s
 
 /// Reader scripts on async read handles against `Cursor` (the same oracle as the sync readers).
 pub fn async_reader_scripts(cfg: &Cfg, base: usize, content: &[u8], depth: usize, vio: &mut Vec<Violation>) -> u64 {
-    let steps = reader_steps(content.len() as i64);
+    let mut steps = reader_steps(content.len() as i64);
+    if !cfg.has_phys() {
+        steps.extend(crate::handle::extreme_reader_steps());
+    }
     let n = steps.len();
     let total = n.pow(depth as u32);
     let res: Vec<Vec<Violation>> = (0..n)
